@@ -31,6 +31,7 @@ def scenarios(rng, tier):
     add("ties", "dna", 120, 40, sub=0.0, indel=0.0, dup=60)   # many equal distances
     add("prof500", "protein", 8, 520, indel=0.06)
     add("small", "dna", 6, 30)
+    add("eqlen", "dna", 240, 150, sub=0.15, indel=0.0)   # equal lengths, different content: every pairwise distance is computed in both roles
     if tier != "quick":
         add("km300", "dna", 300, 120)
         add("km1000", "protein", 1000, 40)
